@@ -630,7 +630,8 @@ def plan(tier, seed):
             for ct in ("lru", "hybrid"):
                 for warm in (False, True):
                     for ms in (None, 1):
-                        units.append(("map-shared-cache-task-interleavings", ("mapthr", {"pipe": pipe, "cache": ct, "warm": warm, "max_size": ms}, 1 if not thorough else 2)))
+                        for k in range(4):  # one configuration's search tree dealt to 4 units (explore.choice_dfs shard=)
+                            units.append(("map-shared-cache-task-interleavings", ("mapthr", {"pipe": pipe, "cache": ct, "warm": warm, "max_size": ms}, 1 if not thorough else 2, (k, 4))))
     by = {}
     for st, u in units:
         by.setdefault(st, []).append((st, u))
@@ -651,9 +652,9 @@ def run_unit(unit):
             acc.sample({"spec": cfg["spec"], "cached": cfg["cached"], "cache": cfg["cache"], "depth": depth, "step_alphabet": n})
     elif unit[0] == "mapthr":
         from .. import explore
-        _, cfg, bound = unit
+        _, cfg, bound = unit[:3]
         n = 0
-        for ch, vs in explore.choice_dfs(lambda c: map_case_shared_interleaved(cfg, c), bound, 3000):
+        for ch, vs in explore.choice_dfs(lambda c: map_case_shared_interleaved(cfg, c), bound, 3000, unit[3] if len(unit) > 3 else None):
             n += 1
             acc.transitions += len(ch.trace)
             acc.traces += 1
